@@ -206,6 +206,35 @@ def check(run, driver):
         want = max(0.0, v) if np.isfinite(v) else v
         if mv is None or not same(float(mv), want):
             run.corr_fail("floor-model", {"v": repr(v)}, r, want)
+    # ---------------- history: the same array objects refilled in place between two dispatcher calls with identical settings
+    #                  (a memo matched on object identity and settings answers the second call from the first)
+    from common import reuse_check
+    hist_methods = [("gaussian", {}), ("knn", {"k": 2, "metric": "euclidean"}), ("kde", {"bandwidth": "scott"}), ("kernel_density", {"bandwidth": 0.7}),
+                    ("geometric_knn", {"k": 2, "metric": "euclidean"}), ("poisson", {})]
+    for it in range(12 if run.tier == "thorough" else 6):
+        name, kw = hist_methods[it % len(hist_methods)]
+        N = int(run.rng.integers(14, 30)); zp = it % 2 == 0 or name == "geometric_knn"
+        mk = (lambda: run.rng.poisson(3.0, size=(N, 3)).astype(float)) if name == "poisson" else (lambda: run.rng.standard_normal((N, 3)))
+        A1, A2 = mk(), mk()
+        A2[:, 1] += A2[:, 0]
+        sp = lambda W: (W[:, :1], W[:, 1:2], W[:, 2:] if zp else None)
+        run.case("history", [name, zp, N, float(A1[0, 0])], True)
+        ok_ = reuse_check(run, f"dispatcher({name})", lambda x, y, z: float(M.conditional_mutual_information(x, y, z, method=name, **kw)), sp(A1), sp(A2), {"estimator": name, "clause": "value"})
+        if ok_:
+            # ... and the value on the refilled buffers is max(0, named estimator on what they hold now)
+            bufs = tuple(None if a is None else np.array(a, copy=True) for a in sp(A1))
+            M.conditional_mutual_information(*bufs, method=name, **kw)
+            for b_, s_ in zip(bufs, sp(A2)):
+                if b_ is not None:
+                    b_[...] = s_
+            got = float(M.conditional_mutual_information(*bufs, method=name, **kw))
+            direct = {"gaussian": M.gaussian_conditional_mutual_information, "knn": M.knn_conditional_mutual_information, "kde": M.kde_conditional_mutual_information,
+                      "kernel_density": M.kde_conditional_mutual_information, "geometric_knn": M.geometric_knn_conditional_mutual_information, "poisson": M.poisson_conditional_mutual_information}[name]
+            v = float(direct(*(None if a is None else np.array(a, copy=True) for a in sp(A2)), **kw))
+            want = max(0.0, v) if np.isfinite(v) else v
+            if not same(got, want):
+                run.prop_fail("dispatcher on refilled buffers is not max(0, named estimator on the data they hold now)", {"method": name, "Z": zp, "N": N, **kw},
+                              {"estimator": name, "clause": "value", "history": "buffer_reuse"}, {"returned": repr(got), "want": repr(want)})
     # ---------------- unknown names
     for bad in ["", "KNN", "gauss", "kernel-density", "knn ", None, 3]:
         try:
